@@ -252,6 +252,7 @@ func cdistReplay(in io.Reader, raw bool, args []string) (*Summary, error) {
 	})
 	sum.note("worst_abs_error", worst)
 	cdistGlobals(sum)
+	normalMonotoneHunt(sum)
 	cdistConcurrent(sum)
 	return sum, err
 }
@@ -512,6 +513,121 @@ func cdistGlobals(sum *Summary) {
 		sum.Checks++
 		if !bitsEqual(runs[0], runs[1]) {
 			sum.viol("Rand-nil-source", c, "%+v: Rand(nil) after re-seeding the global source gives %v the first time and %v the second: it does not draw from the default global source", d, runs[0], runs[1])
+		}
+	}
+}
+
+// normalMonotoneHunt: "CDF is non-decreasing" below the tolerance.  Along a fine grid of z the relative deviation of
+// NormalDist.CDF from the 600-bit series is accurate to ~1e-16; where it changes by more than 2e-14 between two grid points
+// (two formulas joined at a point that is no round number) the jump is chased by bisection down to two neighbouring floats,
+// and there the CDF must not step back by more than 4 ulps.  Also: DeltaDist at an infinite T is still the unit step at T.
+func normalMonotoneHunt(sum *Summary) {
+	c := json.RawMessage(`{"normal-monotone":1}`)
+	for _, d := range []stats.NormalDist{{Mu: 0, Sigma: 1}, {Mu: 2.5, Sigma: 0.75}} {
+		d := d
+		dev := func(z float64) float64 {
+			r := bigPhi(z)
+			return (d.CDF(d.Mu+z*d.Sigma) - r) / r
+		}
+		const N = 2400
+		prevZ, prevD := -8.0, dev(-8)
+		found := 0
+		for k := 1; k <= N && found < 2; k++ {
+			z := -8 + 13*float64(k)/N
+			dv := dev(z)
+			if math.Abs(dv-prevD) > 2e-14 {
+				lo, hi, dlo, dhi := prevZ, z, prevD, dv
+				for it := 0; it < 90 && math.Nextafter(lo, hi) < hi; it++ {
+					mid := lo + (hi-lo)/2
+					dm := dev(mid)
+					if math.Abs(dm-dlo) >= math.Abs(dhi-dm) {
+						hi, dhi = mid, dm
+					} else {
+						lo, dlo = mid, dm
+					}
+				}
+				// neighbouring z; compare the CDF at the corresponding neighbouring x (several floats on either side)
+				x := d.Mu + lo*d.Sigma
+				run := []float64{x}
+				for j := 0; j < 6; j++ {
+					run = append([]float64{math.Nextafter(run[0], math.Inf(-1))}, run...)
+					run = append(run, math.Nextafter(run[len(run)-1], math.Inf(1)))
+				}
+				sum.Checks++
+				for j := 1; j < len(run); j++ {
+					a, b := d.CDF(run[j-1]), d.CDF(run[j])
+					if b < a-4*(math.Nextafter(a, 2)-a) {
+						sum.viol("NormalDist.CDF-monotone", c, "%+v: CDF(%.17g)=%.17g > CDF(%.17g)=%.17g - neighbouring floats out of order (found where the deviation from the series jumps, z = %.6f)", d, run[j-1], a, run[j], b, lo)
+						found++
+						break
+					}
+				}
+			}
+			prevZ, prevD = z, dv
+		}
+	}
+	// a second signal for a joint between two formulas: the NOISE of the deviation changes (one formula is good to 1e-16,
+	// the other only to 1e-13).  noisy(z): the largest |deviation| over five neighbouring floats exceeds 2e-14.  Where
+	// noisy changes between grid points, bisect on it and look at a run of floats around the place found.
+	for _, d := range []stats.NormalDist{{Mu: 0, Sigma: 1}, {Mu: 2.5, Sigma: 0.75}} {
+		d := d
+		noisy := func(z float64) bool {
+			w := 0.0
+			for j := 0; j < 5; j++ {
+				r := bigPhi(z)
+				w = math.Max(w, math.Abs((d.CDF(d.Mu+z*d.Sigma)-r)/r))
+				z = math.Nextafter(z, math.Inf(1))
+			}
+			return w > 2e-14
+		}
+		const N = 400
+		prevZ, prevN := -8.0, noisy(-8)
+		for k := 1; k <= N; k++ {
+			z := -8 + 13*float64(k)/N
+			nz := noisy(z)
+			if nz != prevN {
+				lo, hi := prevZ, z
+				for it := 0; it < 70 && math.Nextafter(lo, hi) < hi; it++ {
+					mid := lo + (hi-lo)/2
+					if noisy(mid) == prevN {
+						lo = mid
+					} else {
+						hi = mid
+					}
+				}
+				x := d.Mu + lo*d.Sigma
+				const reach = 60000 // neighbouring floats looked at on either side (evaluating the CDF costs next to nothing)
+				for j := 0; j < reach; j++ {
+					x = math.Nextafter(x, math.Inf(-1))
+				}
+				sum.Checks++
+				for j := 0; j < 2*reach; j++ {
+					nx := math.Nextafter(x, math.Inf(1))
+					a, b := d.CDF(x), d.CDF(nx)
+					if b < a-4*(math.Nextafter(a, 2)-a) {
+						sum.viol("NormalDist.CDF-monotone", c, "%+v: CDF(%.17g)=%.17g > CDF(%.17g)=%.17g - neighbouring floats out of order (found where the accuracy of the CDF changes, z = %.6f)", d, x, a, nx, b, lo)
+						break
+					}
+					x = nx
+				}
+			}
+			prevZ, prevN = z, nz
+		}
+	}
+	for _, t := range []float64{math.Inf(1), math.Inf(-1)} {
+		dl := stats.DeltaDist{T: t}
+		sum.Checks++
+		if g := dl.CDF(t); g != 1 {
+			sum.viol("DeltaDist", c, "DeltaDist{%v}.CDF(%v)=%v want 1 (the unit step at T, T included)", t, t, g)
+		}
+		if g := dl.InvCDF(0.5); g != t {
+			sum.viol("DeltaDist", c, "DeltaDist{%v}.InvCDF(0.5)=%v want T", t, g)
+		}
+		if g := dl.CDF(-t); t > 0 && g != 0 || t < 0 && g != 1 {
+			sum.viol("DeltaDist", c, "DeltaDist{%v}.CDF(%v)=%v", t, -t, g)
+		}
+		if g := dl.CDF(12.5); t > 0 && g != 0 || t < 0 && g != 1 {
+			sum.viol("DeltaDist", c, "DeltaDist{%v}.CDF(12.5)=%v", t, g)
 		}
 	}
 }
